@@ -133,6 +133,24 @@ NSTEER4 = """ - EXTRACTION and INLINING across function boundaries: a block turn
  - SELECT and CHANNEL spelling: the order of the cases of a `select` (no `default` involved), `case <-ch:` ↔ `case _, ok := <-ch:` with `ok` unused… or handled exactly as the
    zero value was, `for { select { … } }` with a labelled break ↔ a helper function that returns."""
 
+BSTEER5 = """ - UNPINNED behaviour: read the package's `_test.go` files first and pick a branch, option, error path or ordering that NO existing test pins down; say in the README which
+   tests you looked at and why none of them notices;
+ - PROMISES in comments and docs: a godoc sentence or a paragraph under `docs/` that the code keeps today — change the code so that the sentence becomes false in a corner
+   (quote the sentence in the README);
+ - what one package ASSUMES about another (router ↔ GoChannel, CQRS processor ↔ marshaler, request-reply ↔ command processor, delay ↔ requeuer ↔ DelayOnError, forwarder ↔ router,
+   metrics ↔ decorators): change one side so that the assumption no longer holds while each side still looks right on its own;
+ - LOAD-BEARING code that looks redundant: a check, a copy, a lock, a `h := h`, a nil guard, a second look at a flag, a `default:` case, a channel close that a tidy-up would remove
+   or merge with its neighbour;
+ - ZERO VALUES and partial initialisation: a struct built without a constructor, a nil map / nil logger / nil context / zero duration reaching code that used to be protected from it."""
+
+NSTEER5 = """ - TIDY-UPS of genuinely redundant code: a check that an earlier check already implies, `else` after `return`, a double conversion, a variable used once inlined (no side effects
+   in between), an unused parameter of a private function dropped at all call sites, an unused private constant removed;
+ - STATEMENTS reordered where there is no data or synchronisation dependence between them (two independent assignments, two log lines, two field initialisations in a literal);
+ - equivalent STANDARD-LIBRARY spellings: `strings.Cut` ↔ `SplitN`, concatenation ↔ `fmt.Sprintf("%s…")`, `strconv.Itoa` ↔ `FormatInt(…,10)`, `errors.New` ↔ `fmt.Errorf` without verbs,
+   `time.Duration(n)*time.Second` ↔ `n*time.Second` for constants, `len(x) == 0` ↔ `x == ""` for strings;
+ - TYPE-LEVEL housekeeping: a named type for a repeated func signature, `var _ Interface = (*T)(nil)` assertions, a private interface split in two and embedded back, a constant
+   block regrouped (explicit values, not iota-dependent), a private type moved to another file of the package."""
+
 
 def main():
     ap = argparse.ArgumentParser()
@@ -165,7 +183,7 @@ def main():
         os.makedirs(out, exist_ok=True)
         if not os.path.exists(wt):
             subprocess.check_call(["git", "-C", "/repo", "worktree", "add", "--detach", "-q", wt, "HEAD"])
-        txt = HEAD.format(wt=wt, out=out, root=a.root, nb=a.breaking, nn=a.neutral, bsteer={2: BSTEER2, 3: BSTEER3, 4: BSTEER4}.get(a.steer, BSTEER), nsteer={2: NSTEER2, 3: NSTEER3, 4: NSTEER4}.get(a.steer, NSTEER))
+        txt = HEAD.format(wt=wt, out=out, root=a.root, nb=a.breaking, nn=a.neutral, bsteer={2: BSTEER2, 3: BSTEER3, 4: BSTEER4, 5: BSTEER5}.get(a.steer, BSTEER), nsteer={2: NSTEER2, 3: NSTEER3, 4: NSTEER4, 5: NSTEER5}.get(a.steer, NSTEER))
         for i in ids:
             p = props[i]
             txt += f"\n### Property {i} — {p['title']}\n\nStatement: {p['statement']}\n\nQuantified over: {p['quantifier']['text']}\n\n"
